@@ -8,6 +8,13 @@ def hook_commits():
     return [l.split()[0] for l in out.splitlines() if "verif hook" in l]
 
 CLAIMED = {
+ "C02": dict(
+   level="exploration",
+   text="Seeded long histories on a real producer node (genesis period 3..10, up to 30/120 blocks, fee classes, 0-2 hop paths, four golden-ticket patterns, three issuance scales, rebroadcasts after the window wraps), one third with a competing fork built by a second producer and delivered to an observer (reorganisation across payouts/rebroadcasts), one quarter with a transaction whose output sum wraps 2^64 through pool or block. After every accepted block, on every node: conservation equation in u128, node's in-window value == reference replay, no accepted user transaction with outputs > inputs.",
+   design="§6 C02",
+   note="Trusted: reference ledger and u128 arithmetic of the oracle. Staking off; timestamps >= 2 heartbeats apart. Fork depth < genesis period (deeper forks are the orphan case of C03/C05).",
+   technique="deterministic simulation: seeded long-history generation incl. reorgs + u128 conservation oracle, adversarial amount injection"),
+
  "C01": dict(
    level="exploration",
    text="Seeded search over honest histories (fresh / after a reorganisation, 2..10/25 blocks) x a 15-entry catalogue of hostile transaction edits x entry path (pool, block as next tip, block on a side fork that becomes the longer candidate) x transaction position. Oracles: hostile tx absent from the pool, hostile block never on the longest chain, and an independent scan of the node's longest chain against the reference ledger (every value-carrying input spendable at that point and owned by the signer). The honest twin must be accepted or the run does not count.",
